@@ -1,7 +1,7 @@
 // Unit A13 — capability URIs (C09, C12): Capability::from_str against the RFC 6241 / RFC 6242 table, and the reader of the
 // <capabilities> element of a <hello> (C12: the capability set reported is the one in the hello; C14: it terminates).
 use vstd::prelude::*;
-// tokio::try_join!(a, b): sequential model - both results, or an error if one of them failed
+// tokio::try_join!(a, b): drives both futures concurrently - both results, or an error if one of them failed
 #[allow(unused_macros)]
 pub mod tokio { macro_rules! try_join_ { ($a:expr, $b:expr) => { crate::try_join2($a, $b) } } pub(crate) use try_join_ as try_join; }
 verus! {
@@ -194,14 +194,37 @@ pub struct Transport;
 impl Transport { #[verifier::external_body] pub fn split(self) -> (r: (Tx, Rx)) { unimplemented!() } }
 // what the peer's <hello> parses to (ServerMsg::recv = transport recv + from_xml + ServerHello::read_xml, units a1 / a12 / a8)
 pub uninterp spec fn hello_received(rx: Rx) -> Result<ServerHello, Error>;
+// The hello exchange is SIMULTANEOUS (RFC 6241 8.1: each peer MUST send its <hello> as soon as the session is up and MUST NOT wait
+// for the other's): the futures of our send and of our receive have to be driven together. Awaiting either of them on its own
+// can block for ever - our send when the peer does not read before it has written its own hello, our receive when the peer waits
+// for ours. Modelled (R3 awaitcall): `send` / `recv` return futures; driving both together is `try_join2`; awaiting one of them
+// alone has the precondition `false`.
+pub struct SendFut;
+pub struct RecvFut { pub rx: Ghost<Rx> }
+impl SendFut {
+    #[verifier::external_body]
+    pub fn await_(self) -> (r: Result<(), Error>)
+        requires false,                                                                       // OBL:C12.session.hello_is_sent_while_receiving
+    { unimplemented!() }
+}
+impl RecvFut {
+    #[verifier::external_body]
+    pub fn await_(self) -> (r: Result<ServerHello, Error>)
+        requires false,                                                                       // OBL:C12.session.hello_is_received_while_sending
+        ensures r == hello_received(self.rx@),
+    { unimplemented!() }
+}
 impl ClientHello {
     #[verifier::external_body] pub fn default() -> (r: ClientHello) { unimplemented!() }
-    #[verifier::external_body] pub fn send(&self, sender: &mut Tx) -> (r: Result<(), Error>) { unimplemented!() }
+    #[verifier::external_body] pub fn send(&self, sender: &mut Tx) -> (r: SendFut) { unimplemented!() }
 }
 impl ServerHello {
     #[verifier::external_body]
-    pub fn recv(receiver: &mut Rx) -> (r: Result<ServerHello, Error>) ensures r == hello_received(*old(receiver)) { unimplemented!() }
+    pub fn recv(receiver: &mut Rx) -> (r: RecvFut) ensures r.rx@ == *old(receiver) { unimplemented!() }
 }
+// results that are already complete (`Self::new(transport).await`-style awaits on a Result)
+pub trait AwaitDone: Sized { fn await_(self) -> (r: Self) ensures r == self; }
+impl<T> AwaitDone for Result<T, Error> { fn await_(self) -> (r: Self) { self } }
 pub struct Mutex<T> { pub v: T }
 impl<T> Mutex<T> { pub fn new(v: T) -> (r: Self) ensures r.v == v { Mutex { v } } }
 pub struct Arc<T> { pub v: T }
@@ -210,11 +233,10 @@ pub struct HashMap;
 impl HashMap { #[verifier::external_body] pub fn default() -> (r: HashMap) { unimplemented!() } }
 pub mod rpcm { pub struct MessageId { pub n: usize } impl MessageId { #[verifier::external_body] pub fn default() -> (r: MessageId) { unimplemented!() } } }
 pub struct Session { pub transport_tx: Arc<Mutex<Tx>>, pub transport_rx: Arc<Mutex<Rx>>, pub context: Context, pub last_message_id: rpcm::MessageId, pub requests: Arc<Mutex<HashMap>> }
-pub fn try_join2<A, B>(a: Result<A, Error>, b: Result<B, Error>) -> (r: Result<(A, B), Error>)
-    ensures match r { Ok((x, y)) => a == Ok::<A, Error>(x) && b == Ok::<B, Error>(y), Err(_) => a is Err || b is Err }
-{
-    match a { Ok(x) => match b { Ok(y) => Ok((x, y)), Err(e) => Err(e) }, Err(e) => Err(e) }
-}
+#[verifier::external_body]
+pub fn try_join2(a: SendFut, b: RecvFut) -> (r: Result<((), ServerHello), Error>)
+    ensures r matches Ok(((), h)) ==> hello_received(b.rx@) == Ok::<ServerHello, Error>(h)
+{ unimplemented!() }
 
 pub mod establish {
 use super::*;
@@ -254,7 +276,7 @@ impl Context {
 //@end
 }
 impl Session {
-//@extract id=session_new file=netconf/src/session.rs impl=/^impl<T: Transport> Session<T>/ fn=new rules=R1,R2,R3 vis=pub
+//@extract id=session_new file=netconf/src/session.rs impl=/^impl<T: Transport> Session<T>/ fn=new rules=R1,R2,R3 awaitcall=1 vis=pub
 //@+ sub=/rpc::MessageId::default()=>rpcm::MessageId::default()/
 //@sig pub fn new(transport: Transport) -> (res: Result<Self, Error>)
 //@contract
